@@ -326,7 +326,7 @@ def sc_escalate(spec, can, res, R):
         R.do(conn.acquire_priv, "configuration")
     R.do(conn.send_command, "show " + can["CMD"].core)
     if v == "priverr":
-        R.do(conn.acquire_priv, "no-such-level-" + can["CMD"].core)
+        R.do(conn.acquire_priv, "no-such-level")
     R.do(conn.close)
 
 
